@@ -1,6 +1,20 @@
 #[cfg(feature = "html_trace_bt")]
 extern crate backtrace;
 
+/* Verification hook: report one step at a site to the (optional) step
+ * clock.  Compiles to nothing unless built with `--cfg html2text_verif`.
+ */
+#[cfg(html2text_verif)]
+macro_rules! verif_tick {
+    ($site:ident) => {
+        $crate::verif_hooks::tick($crate::verif_hooks::Site::$site)
+    };
+}
+#[cfg(not(html2text_verif))]
+macro_rules! verif_tick {
+    ($site:ident) => {};
+}
+
 /* This is to work around a false positive for the clippy warning
  * `match_on_same_arms`.
  * See https://github.com/Manishearth/rust-clippy/issues/1390
